@@ -1,7 +1,8 @@
 (* C13 -- global binary metrics depend only on the two foregrounds.
    F is the metric applied to the binarised arrays (any function of them). *)
-From Pan Require Import Base.Common Base.Sx Model.MetricTable Model.EdgeCase Model.Result Model.Metrics
-  Proofs.C13Proofs.
+From Pan Require Import Base.Common Base.Rnd64 Base.Sx Model.MetricTable Model.EdgeCase Model.Result Model.Metrics
+  Proofs.C13Proofs Proofs.MetricsFacts Proofs.C13Formulas.
+From Coq Require Import Permutation.
 Open Scope Z_scope.
 
 (* the value is a function of the foregrounds only: independent of the division into instances ... *)
@@ -31,6 +32,49 @@ Theorem C13_emptiness_flags : forall a,
   (fg_pred_empty a = true <-> forall v, In v a -> snd v = 0) /\
   (fg_ref_empty a = true <-> forall v, In v a -> fst v = 0).
 Proof. intros a. split; [apply fg_pred_empty_spec|apply fg_ref_empty_spec]. Qed.
+
+(* the concrete overlap metrics: the global Dice / IoU / RVD of two multi-label maps are the published set
+   formulas of the two foregrounds of the ORIGINAL arrays (n_ref = |R|, n_pred = |P|, n_inter = |R n P|,
+   n_union = |R u P| count non-zero voxels), one IEEE division each, whatever the instance labels *)
+Theorem C13_global_dice_iou_rvd_are_foreground_formulas : forall a,
+  dice None (binarise a) =
+    rnd (if n_ref a + n_pred a =? 0 then 0%Q else qdiv (2 * n_inter a) (n_ref a + n_pred a)) /\
+  iou None (binarise a) = rnd (if n_union a =? 0 then 0%Q else qdiv (n_inter a) (n_union a)) /\
+  rvd None (binarise a) = match rvd_exact (n_ref a) (n_pred a) with Ok q => Ok (rnd q) | Err c => Err c end.
+Proof. intros a. split; [apply global_dice_formula|split; [apply global_iou_formula|apply global_rvd_formula]]. Qed.
+
+(* hence the reported global entries (handler branches included) are functions of the four foreground
+   counts only, and the emptiness flags are "count = 0" *)
+Theorem C13_global_overlap_entries_depend_on_counts_only : forall h m a a',
+  n_ref a = n_ref a' -> n_pred a = n_pred a' -> n_inter a = n_inter a' -> n_union a = n_union a' ->
+  global_value gF_dice h m a = global_value gF_dice h m a' /\
+  global_value gF_iou h m a = global_value gF_iou h m a' /\
+  global_value gF_rvd h m a = global_value gF_rvd h m a'.
+Proof. exact global_overlap_counts. Qed.
+
+Theorem C13_emptiness_flags_are_counts : forall a,
+  fg_ref_empty a = (n_ref a =? 0) /\ fg_pred_empty a = (n_pred a =? 0).
+Proof. exact fg_flags_counts. Qed.
+
+(* ... in particular they do not depend on where the voxels are (any rearrangement applied to both arrays) *)
+Theorem C13_global_overlap_entries_voxel_order_irrelevant : forall h m a a', Permutation a a' ->
+  global_value gF_dice h m a = global_value gF_dice h m a' /\
+  global_value gF_iou h m a = global_value gF_iou h m a' /\
+  global_value gF_rvd h m a = global_value gF_rvd h m a'.
+Proof. exact global_overlap_perm. Qed.
+
+(* exchanging prediction and reference leaves global Dice and IoU unchanged *)
+Theorem C13_global_dice_iou_symmetric : forall a,
+  dice None (binarise (swap2 a)) = dice None (binarise a) /\
+  iou None (binarise (swap2 a)) = iou None (binarise a).
+Proof. exact global_dice_iou_exchange. Qed.
+
+Example C13_formulas_nonvacuous :
+  dice None (binarise [(3, 7); (4, 0); (0, 9); (0, 0)]) = rnd (qdiv 2 4) /\
+  iou None (binarise [(3, 7); (4, 0); (0, 9); (0, 0)]) = rnd (qdiv 1 3) /\
+  rvd None (binarise [(3, 7); (4, 0); (0, 9); (0, 0)]) = Ok (rnd (qdiv 0 2)) /\
+  rvd None (binarise [(0, 7)]) = Err E_ZERODIV.
+Proof. vm_compute. repeat split; reflexivity. Qed.
 
 Example C13_nonvacuous :
   let h := {| h_table := [(DSC, mh4 NAN ZERO ONE INF)]; h_std := NAN |} in
